@@ -29,7 +29,7 @@ EXPLANATION = (
     'interval is at most 1000 nodes, and shouldStop returns true exactly on elapsed >= the limit selected by searchNeedMoreTime.'
     ' The limit shouldStop compares the elapsed time with is, on every path, bounded by the hard limit (hard, soft, or min(.., hard)).'
     ' Added later; (4) on every go path the option queue is drained (stopThread -> waitStop -> waitOptionsSet) before the protocol thread reads option values in computeTimeLimit / startThread.'
-    ' Added later; (5) Communicator::sendInitSearch must-writes the node / tbhit accumulators and every search passes it.')
+    ' Added later; (5) Communicator::sendInitSearch must-writes the node / tbhit accumulators and every search passes it. (6) every position-decoding sweep of the on-demand tablebase generation gives up both for limit 0 (stop) and for a positive limit that has passed (ponderhit) - found and fixed defect D19.')
 UNDECIDED = ('wall-clock latency and the virtual-clock bound "within one polling interval" (timing is not a static quantity); the '
              'behaviour of the search between two polls.')
 ASSUMPTIONS = ['input domain of the property: wtime/btime 1..10^7 ms, inc 0..10^5, movestogo 0..100, BufferTime and the time-usage parameters inside their declared Param<> ranges',
@@ -58,6 +58,7 @@ def run(fb, rep, tier):
     # and deaf to stop (shared with C14.2)
     from . import C14
     C14.accumulators_reset(fb, rep, 'C06.5')
+    c6_generation_polls_limit(fb, rep)
 
 
 def _strip(t):
@@ -624,3 +625,135 @@ def c4_options_before_limits(fb, rep, clause='C06.4'):
                 rep.ob(clause, 'K2 must-precede', '%s: %s reads option values only after the option queue was drained (stopThread)' % (nm.split('::')[-1], cname(e).split('::')[-1]),
                        w is None, R.site(f, e), '', f.sname)
     rep.floor(clause, 'option-reading calls on the go paths', n, 4)
+
+
+# ----------------------------------------------------------------------------- .6
+
+def c6_generation_polls_limit(fb, rep):
+    """K4/K12 the on-demand tablebase generation runs inside the search's time budget and can take seconds; the search cannot
+    poll while it runs, so every phase of TBGenerator::generate (each outermost loop that sweeps the position index space)
+    must itself give up when the shared hard limit says so - in both ways the limit can say it: 0 (`stop`) and a positive
+    limit that has already passed (a `ponderhit` that arrives during the generation sets one).  The guards of the
+    `return false` statements of each phase are evaluated three-valued with the limit set to 0 / to 1 ms, the time at entry
+    0 and every later clock reading unbounded; a phase passes if some `return false` has no guard that evaluates to false."""
+    clause = 'C06.6'
+    cands = [f for f in fb.funcs.values() if f.has_cfg and f.sname == 'TBGenerator::generate' and len(f.blocks) > 30]
+    if rep.need(clause, cands, 'TBGenerator::generate') is None:
+        return
+    n_phase = 0
+    for f in sorted(cands, key=lambda x: x.name):
+        params = f.d.get('params', [])
+        lim = next((p_['id'] for p_ in params if 'RelaxedShared' in (p_.get('t') or '')), None)
+        if rep.need(clause, lim, 'the shared limit parameter of ' + f.name) is None:
+            continue
+        loops = f.natural_loops()
+        in_loop = set().union(*loops.values()) if loops else set()
+        decl = {}
+        for b, i, e in f.events():
+            if e.get('k') == 'decl':
+                for v in e.get('vars', []):
+                    decl[v['id']] = (b, v)
+        assigned = set()
+        for b, i, e in f.events():
+            for n in walk(e):
+                if isinstance(n, dict) and n.get('k') in ('asg', 'incdec'):
+                    tg = _strip(n.get('l') if n.get('k') == 'asg' else n.get('e'))
+                    if isinstance(tg, dict) and tg.get('k') == 'var':
+                        assigned.add(tg.get('id'))
+        npos = {vid for vid, (b, v) in decl.items() if any(isinstance(n, dict) and n.get('k') == 'call' and cname(n).split('::')[-1] == 'nPositions' for n in walk(v.get('init')))}
+
+        def ev(t, L, depth=0):
+            """number, bool or None (unknown)"""
+            t = _strip(t)
+            if not isinstance(t, dict) or depth > 12:
+                return None
+            if 'cv' in t:
+                return t['cv']
+            k = t.get('k')
+            if k == 'flt':
+                return t.get('v')
+            if k == 'paren':
+                return ev(t.get('e'), L, depth + 1)
+            if k == 'call':
+                r = _strip(t.get('recv'))
+                if isinstance(r, dict) and r.get('k') == 'var' and r.get('id') == lim and not t.get('args'):
+                    return L                        # RelaxedShared::operator T / get()
+                if cname(t).split('::')[-1] == 'currentTime':
+                    return float('inf')
+                return None
+            if k == 'var':
+                if t.get('id') == lim:
+                    return L
+                d = decl.get(t.get('id'))
+                if d is not None and t['id'] not in assigned and d[1].get('init') is not None:
+                    init = _strip(d[1]['init'])
+                    if isinstance(init, dict) and init.get('k') == 'call' and cname(init).split('::')[-1] == 'currentTime':
+                        return 0.0 if d[0] not in in_loop else float('inf')     # entry time / any later reading
+                    return ev(init, L, depth + 1)
+                return None
+            if k == 'un' and t.get('op') == '!':
+                v = ev(t.get('e'), L, depth + 1)
+                return None if v is None else (not v)
+            if k == 'bin':
+                op = t.get('op')
+                a, b = ev(t.get('l'), L, depth + 1), ev(t.get('r'), L, depth + 1)
+                if op == '&&':
+                    if (a is not None and not bool(a)) or (b is not None and not bool(b)):
+                        return False
+                    return None if a is None or b is None else True
+                if op == '||':
+                    if (a is not None and bool(a)) or (b is not None and bool(b)):
+                        return True
+                    return None if a is None or b is None else False
+                if a is None or b is None:
+                    return None
+                try:
+                    if op in ('+', '-', '*'):
+                        r = {'+': a + b, '-': a - b, '*': a * b}[op]
+                        return None if r != r else r
+                    if op in ('<', '<=', '>', '>=', '==', '!='):
+                        return {'<': a < b, '<=': a <= b, '>': a > b, '>=': a >= b, '==': a == b, '!=': a != b}[op]
+                except Exception:
+                    return None
+            return None
+
+        phases = []
+        for h, body in sorted(loops.items()):
+            if any(h in loops[o] and o != h for o in loops):
+                continue
+            sweeps = [h2 for h2 in loops if h2 in body and any(isinstance(n, dict) and n.get('k') == 'var' and n.get('id') in npos
+                                                                for n in walk((f.blocks[h2].get('term') or {}).get('cond')))]
+            # ... and decodes positions while doing so (the closing linear pass that only rewrites table values is one cheap
+            # sweep, shorter than a pass of the phases it follows)
+            decodes = any(e.get('k') == 'call' and cname(e) == 'TBPosition::setIndex' for b in body for e in f.blocks[b]['ev'])
+            if sweeps and decodes:
+                phases.append((h, body))
+        k = 0
+        for h, body in sorted(phases, key=lambda x: (f.blocks[x[0]].get('term') or {}).get('ln') or 0):
+            k += 1
+            n_phase += 1
+            # the returns of the phase: blocks left from the loop body that return (they are not part of the natural loop,
+            # since they never reach the back edge)
+            rets, seen_r = [], set()
+            for b in sorted(body):
+                for s_ in f.blocks[b]['succ']:
+                    x, steps = s_, 0
+                    while x in f.blocks and x not in body and steps < 4 and x not in seen_r:
+                        seen_r.add(x)
+                        re_ = [e for e in f.blocks[x]['ev'] if e.get('k') == 'ret']
+                        if re_:
+                            if (_strip(re_[0].get('e')) or {}).get('cv') == 0:
+                                rets.append((x, re_[0], G.guard_trees(f, set(f.blocks), x)))
+                            break
+                        if len(f.blocks[x]['succ']) != 1:
+                            break
+                        x, steps = f.blocks[x]['succ'][0], steps + 1
+            for name, L in (('0 (stop)', 0), ('a positive limit that has passed (ponderhit)', 1)):
+                live = []
+                for b, e, gs in rets:
+                    vals = [ev(c, L) for c, _ in gs]
+                    if not any(v is not None and bool(v) != side for v, (_, side) in zip(vals, gs)):
+                        live.append(e.get('ln'))
+                rep.ob(clause, 'K4 guard', '%s: phase %d of the generation gives up when the shared limit is %s' % (f.name.replace('TBGenerator', 'TBGen'), k, name), bool(live),
+                       '%s:%s' % (f.file, (f.blocks[h].get('term') or {}).get('ln')), '%d `return false` in the phase, taken under this limit: lines %s' % (len(rets), live), f.sname)
+    rep.floor(clause, 'phases of TBGenerator::generate', n_phase, 6)
